@@ -35,6 +35,8 @@ PROBED (what is run, over which domain):
    both classifiers, exception-only view, notfound view}, each committed on its own:
      clears           every kind ends up calling the clear
      swapLast         the LAST recorded event of every kind is the clear (modify before swap)
+     clearDropsEverything   after every kind of registration `registry._view_lookup_cache` is a new, EMPTY dict: sentinel
+                      entries planted under unrelated keys before the registration are gone (no partial invalidation)
      multiviewFirst   in the conversion `register(IMultiView)` precedes every `unregister(IView/ISecuredView)`
      registerViewCalls   adapter mutations of the first registration
  * a real application whose slot (no context, name '') holds a MultiView with `accept=` members, asked with the SAME
@@ -337,17 +339,18 @@ def _probe_registrations(out, P):
     ad = reg.adapters
     o_reg, o_unreg, o_clear = ad.register, ad.unregister, reg._clear_view_lookup_cache
 
-    def w_reg(required, provided, name, value):
+    # recorders forward their arguments untouched (the methods may grow parameters)
+    def w_reg(required, provided, name, value, *a, **kw):
         events.append(('unregister' if value is None else 'register', provided))
-        return o_reg(required, provided, name, value)
+        return o_reg(required, provided, name, value, *a, **kw)
 
-    def w_unreg(required, provided, name, value=None):
+    def w_unreg(required, provided, *a, **kw):
         events.append(('unregister', provided))
-        return o_unreg(required, provided, name, value)
+        return o_unreg(required, provided, *a, **kw)
 
-    def w_clear():
+    def w_clear(*a, **kw):
         events.append(('clear', None))
-        return o_clear()
+        return o_clear(*a, **kw)
 
     ad.register, ad.unregister, reg._clear_view_lookup_cache = w_reg, w_unreg, w_clear
 
@@ -369,11 +372,18 @@ def _probe_registrations(out, P):
              ('exception-both', lambda: config.add_view(view(5), context=E1)),
              ('exception-only', lambda: config.add_exception_view(view(6), context=E2)),
              ('notfound', lambda: config.add_notfound_view(view(7)))]
-    clears, last, first_mutations, mvfirst = True, True, 0, None
+    clears, last, first_mutations, mvfirst, drops = True, True, 0, None, True
     for kind, do in kinds:
         del events[:]
+        before = reg._view_lookup_cache
+        sentinels = [('sentinel', kind), (object(), object(), 'other-name'), (None, None, '')]
+        for s in sentinels:
+            before[s] = ['stale']
         do()
         config.commit()
+        after = reg._view_lookup_cache
+        if after is before or len(after) != 0 or any(s in after for s in sentinels):
+            drops = False                                   # the registration left (part of) the old cache in force
         ev = list(events)
         muts = [e for e in ev if e[0] != 'clear']
         if not muts:
@@ -392,6 +402,7 @@ def _probe_registrations(out, P):
             else:
                 mvfirst = regs[0] < min(unregs)
     out['clears'], out['swapLast'] = clears, clears and last
+    out['clearDropsEverything'] = drops
     out['registerViewCalls'] = first_mutations
     out['multiviewFirst'] = mvfirst
 
@@ -495,7 +506,7 @@ def facts(src_root):
         sys.path.insert(0, src_root)
     defaults = dict(clears=None, swapLast=None, freshDict=None, singleRead=None, cacheEmpty=None, writeUnderLock=None,
                     probeBeforeScan=None, scanInLoop=None, returnsLocal=None, keyCoversScan=None, multiviewFirst=None,
-                    multiViewScannedLast=None, cachedValuesImmutable=None, multiviewStateless=None, fallbackFreshDict=None, lockIsLock=None, registerViewCalls=0,
+                    multiViewScannedLast=None, cachedValuesImmutable=None, multiviewStateless=None, clearDropsEverything=None, fallbackFreshDict=None, lockIsLock=None, registerViewCalls=0,
                     keyFields=['unknown'], scanInputs=['unknown'])
     out.update(defaults)
     try:
@@ -519,13 +530,13 @@ def facts(src_root):
         P.append('ast cross-check failed: %s' % e)
         out['astSingleLoad'] = None
     for k in ('clears', 'swapLast', 'freshDict', 'singleRead', 'cacheEmpty', 'writeUnderLock', 'probeBeforeScan', 'scanInLoop',
-              'returnsLocal', 'keyCoversScan', 'multiviewFirst', 'multiViewScannedLast', 'cachedValuesImmutable', 'multiviewStateless', 'fallbackFreshDict', 'lockIsLock'):
+              'returnsLocal', 'keyCoversScan', 'multiviewFirst', 'multiViewScannedLast', 'cachedValuesImmutable', 'multiviewStateless', 'clearDropsEverything', 'fallbackFreshDict', 'lockIsLock'):
         if out[k] is None:
             P.append('%s could not be determined' % k)
     out['recognised'] = not P
     summary.clear()
     summary.update({k: out[k] for k in ('recognised', 'clears', 'swapLast', 'freshDict', 'singleRead', 'cacheEmpty', 'writeUnderLock',
-                                        'keyFields', 'scanInputs', 'keyCoversScan', 'multiviewFirst', 'multiViewScannedLast', 'cachedValuesImmutable', 'multiviewStateless', 'problems')})
+                                        'keyFields', 'scanInputs', 'keyCoversScan', 'multiviewFirst', 'multiViewScannedLast', 'cachedValuesImmutable', 'multiviewStateless', 'clearDropsEverything', 'problems')})
     return out
 
 
@@ -549,6 +560,8 @@ def generate(src_root):
          'def clears : Bool := ' + _b(f['clears'], False),
          '/-- … as the last thing it does, after every adapter mutation -/',
          'def swapLast : Bool := ' + _b(f['swapLast'], False),
+         '/-- after every kind of registration the cache is a new EMPTY dict (no partial invalidation) -/',
+         'def clearDropsEverything : Bool := ' + _b(f['clearDropsEverything'], False),
          '/-- adapter mutations of a first registration -/',
          'def registerViewCalls : Nat := %d' % f['registerViewCalls'],
          '/-- converting a single view into a multiview registers IMultiView before it unregisters IView/ISecuredView -/',
